@@ -53,13 +53,16 @@ func (r *ascii85Reader) Read(p []byte) (n int, err error) {
 	if len(p) == 0 {
 		return 0, nil
 	}
-	if r.immediateError != nil {
-		return 0, r.immediateError
-	}
-
 	if len(r.leftover) > 0 {
 		n = copy(p, r.leftover)
 		r.leftover = r.leftover[n:]
+	}
+	if r.immediateError != nil {
+		if n > 0 {
+			// deliver the rest of the final group before the error
+			return n, nil
+		}
+		return 0, r.immediateError
 	}
 
 	for n < len(p) {
@@ -87,6 +90,11 @@ func (r *ascii85Reader) Read(p []byte) (n int, err error) {
 					r.immediateError = io.EOF
 				} else {
 					r.immediateError = errors.New("invalid end marker in ASCII85 stream")
+				}
+				if len(r.leftover) > 0 {
+					// p is full, but part of the final group is still
+					// waiting; the next call reports the error
+					return n, nil
 				}
 				return n, r.immediateError
 			}
